@@ -99,14 +99,27 @@ func (l dirItemList) size(joliet bool) sizeBytes {
 			entries = item.dirEntryJoliet
 		}
 
-		for _, entry := range entries {
-			ret += entry.size()
-		}
-
-		ret = ret.sectors().bytes() // directory entries of one directory aligned to sector
+		ret += dirEntriesSize(entries) // directory entries of one directory aligned to sector
 	}
 
 	return ret
+}
+
+// dirEntriesSize returns size of directory made of given entries: whole number of sectors.
+// Directory record can't cross sector boundary, so record which doesn't fit to remaining space
+// of current sector starts in the next one (ECMA-119 6.8.1.1).
+func dirEntriesSize(entries []directoryEntry) sizeBytes {
+	var ret sizeBytes
+
+	for _, entry := range entries {
+		if entrySize := entry.size(); ret%sectorSize+entrySize > sectorSize {
+			ret = ret.sectors().bytes()
+		}
+
+		ret += entry.size()
+	}
+
+	return ret.sectors().bytes()
 }
 
 type fileItem struct {
